@@ -172,3 +172,6 @@ def replay(rep, wd, payload):
         print('observed now:', got)
         if got != p['required']:
             rep.violation(payload['key'], p)
+    else:
+        import sys
+        core.generic_replay(sys.modules[__name__], rep, wd, payload)
